@@ -72,3 +72,20 @@ package internal
 //@     invariant -1 <= rangeindex#2 && 0 <= rangeindex#1 && rangeindex#1 < len(sensorCfgs()) && same(sensorCfgs(), old(sensorCfgs())) && config.HwMon != nil && config.HwMon == sensorCfgs()[rangeindex#1].HwMon
 //@     invariant forall s int :: 0 <= s && s < rangeindex#1 && sensorCfgs()[s].HwMon != nil ==> sensorBound(sensorCfgs()[s].HwMon, controllers)
 //@     invariant found ==> sensorBound(config.HwMon, controllers)
+
+// ---- accepted configuration => evaluation preconditions (C11) ------------------------------------------------
+//@ func lemmaAcceptedFunctionCurve
+//@   props C11
+//@   requires cfg != nil && c != nil && 0 <= i && i < len(cfg.Curves) && cfg.Curves[i].Function != nil && c.Config.Function == cfg.Curves[i].Function && c.Config.ID == cfg.Curves[i].ID
+//@   requires configuration.curveShapeOK(cfg, i) && configuration.curveRefsOK(cfg, i) && configuration.curveEvaluable(cfg, i) && len(cfg.Curves[i].Function.Curves) <= 100000
+//@   requires forall id string :: configuration.hasCurve(cfg, id) ==> id in curveReg
+//@   modifies anything
+//@ func lemmaAcceptedLinearCurve
+//@   props C11
+//@   requires cfg != nil && c != nil && 0 <= i && i < len(cfg.Curves) && cfg.Curves[i].Linear != nil && c.Config.Linear == cfg.Curves[i].Linear
+//@   requires configuration.curveShapeOK(cfg, i) && configuration.curveRefsOK(cfg, i) && configuration.curveEvaluable(cfg, i)
+//@   requires forall id string :: configuration.hasSensor(cfg, id) ==> id in sensorReg && id in sensorFinite
+// value ranges the validator does not check (documented: speeds 0..255, temperatures in degrees):
+//@   requires c.Config.Linear.Steps != nil ==> forall k :: k in c.Config.Linear.Steps ==> fin(c.Config.Linear.Steps[k]) && 0.0 <= c.Config.Linear.Steps[k] && c.Config.Linear.Steps[k] <= 255.0 && -1000000 <= k && k <= 1000000
+//@   requires c.Config.Linear.Steps == nil ==> c.Config.Linear.Min < c.Config.Linear.Max && -1000000 <= c.Config.Linear.Min && c.Config.Linear.Max <= 1000000
+//@   modifies anything
